@@ -186,6 +186,9 @@ class Engine:
         self._solver = z3.Solver()
         self._solver.set("timeout", 5000)
         self.yield_hook = None
+        self.genexit_hook = None     # (engine, final_blocks, frame): a generator abandoned at a yield inside try/finally
+        self.handling = []           # exceptions being handled (for a bare `raise`)
+        self.in_memo = None          # qualname of the memoised function whose body is being interpreted
         self.on_obligation = None
         self.assume_proved = True
         self.path_tag = ""
@@ -520,7 +523,10 @@ class Engine:
 
     def s_Raise(self, s, fr):
         if s.exc is None:
-            raise Unsupported("bare raise")
+            # re-raise the exception being handled
+            if not self.handling:
+                raise PyRaise("RuntimeError", ("No active exception to reraise",), s)
+            raise self.handling[-1]
         v = self.eval(s.exc, fr)
         raise self.to_raise(v, s)
 
@@ -535,8 +541,30 @@ class Engine:
         raise Unsupported("raise of %r" % (v,))
 
     def s_Try(self, s, fr):
-        if s.finalbody:
-            raise Unsupported("try/finally")
+        if not s.finalbody:
+            return self._try_except(s, fr)
+        # try/finally: the final block runs however the protected part is left (normally, by an exception, by
+        # return / break / continue); a path the harness ends (PathEnd) is not an exit of the program.
+        # A `yield` inside the protected part is a point where the consumer may abandon the generator; the final
+        # block then runs at the generator's finalisation -- at an arbitrary LATER time (see e_Yield).
+        stack = getattr(fr, "finally_stack", None)
+        if stack is None:
+            stack = fr.finally_stack = []
+        stack.append(s.finalbody)
+        try:
+            self._try_except(s, fr)
+        except (PathEnd, Unsupported):
+            raise
+        except BaseException as ex:
+            stack.pop()
+            if not isinstance(ex, (PyRaise, _Return, _Break, _Continue)):
+                raise
+            self.exec_block(s.finalbody, fr)      # an exit of its own (return / raise in the final block) wins
+            raise
+        stack.pop()
+        self.exec_block(s.finalbody, fr)
+
+    def _try_except(self, s, fr):
         try:
             self.exec_block(s.body, fr)
         except PyRaise as e:
@@ -544,7 +572,11 @@ class Engine:
                 if self.handler_matches(h, e, fr):
                     if h.name:
                         fr.env[h.name] = self.exc_value(e)
-                    self.exec_block(h.body, fr)
+                    self.handling.append(e)
+                    try:
+                        self.exec_block(h.body, fr)
+                    finally:
+                        self.handling.pop()
                     return
             raise
         else:
@@ -777,9 +809,12 @@ class Engine:
         if name in env:
             v = env[name]
             if isinstance(v, Havoc):
-                self.prove("loop-invariant:local-%r-is-carried-across-iterations-but-no-invariant-describes-it(%s)"
-                           % (name, fr.fi.qualname if fr.fi else "?"), False, props=("*",), where="%s:%d" % (fr.file, fr.line))
-                raise PathEnd()
+                # a local carried over from an earlier iteration that no invariant describes: ANY value.  It is an opaque
+                # value of unknown kind -- passing it on, comparing or testing it is fine (and a contract clause that
+                # needs it to be something definite fails); arithmetic on it is outside what can be decided (Unsupported ->
+                # checker error, never an alarm by itself).
+                v = env[name] = Opq(tag="carried-over:" + name)
+                self.used_carried = getattr(self, "used_carried", set()) | {name}
             return v
         if fr.spec_env is not None and name in fr.spec_env:
             return fr.spec_env[name]
@@ -939,6 +974,8 @@ class Engine:
                 return self._fld(flds[name], obj)
             if m is not None:
                 if m[0] == "method":
+                    if any(d.split(".")[-1] == "staticmethod" for d in m[1].decorators):
+                        return m[1]           # a static method: the plain function, nothing bound
                     return BoundMethod(obj, m[1])
                 if m[0] == "classmethod":
                     return BoundMethod(ClassVal(obj.cls), m[1])
@@ -1604,6 +1641,12 @@ class Engine:
         v = self.eval(e.value, fr) if e.value is not None else None
         if self.yield_hook is None:
             raise Unsupported("yield without a generator contract")
+        pending = getattr(fr, "finally_stack", None)
+        if pending:
+            # the consumer may drop the generator here; its final blocks then run when it is finalised
+            if self.genexit_hook is None:
+                raise Unsupported("yield inside try/finally: finalisation of an abandoned generator has no contract here")
+            self.genexit_hook(self, list(reversed(pending)), fr)
         return self.yield_hook(self, v, fr, e)
 
     # ------------------------------------------------------------------ calls
@@ -1678,11 +1721,18 @@ class Engine:
             return h(args, kwargs, node, fr)
         if isinstance(f, LibCallable):
             self.used_lib.add(f.name)
+            if self.in_memo and (f.name in ("builtin.open", "wave.open", "time.sleep", "datetime.datetime.now")
+                                 or f.name.startswith(("os.path.exists", "os.path.isfile", "os.path.getsize", "os.stat"))):
+                self.prove("memoised:%s-answers-from-its-arguments-alone(it-consults-%s)" % (self.in_memo.split(".")[-1], f.name),
+                           False, props=("*",))
             return f.fn(self, args, kwargs)
         if isinstance(f, BoundLib):
             return self.call_lib_method(f.obj, f.name, args, kwargs, node)
         if isinstance(f, IfaceMethod):
             self.used_contracts.add("%s.%s" % (f.obj.cls, f.name))
+            if self.in_memo:
+                self.prove("memoised:%s-answers-from-its-arguments-alone(it-uses-the-object-%s.%s)" % (
+                    self.in_memo.split(".")[-1], f.obj.cls, f.name), False, props=("*",))
             return f.fn(self, f.obj, args, kwargs)
         if isinstance(f, ClassVal):
             return self.instantiate(f.name, args, kwargs, node)
@@ -1696,16 +1746,76 @@ class Engine:
 
     _KNOWN_DECORATORS = ("property", "classmethod", "staticmethod", "abstractmethod", "abc.abstractmethod")
 
+    def memo_info(self, d, fi):
+        """Is decorator text `d` a memoising decorator?  functools.lru_cache / functools.cache, bare or called, or a decorator
+        DEFINED IN THE REPOSITORY whose own body builds on one of those.  Returns None or {"typed": bool}."""
+        import re as _re
+        head = d.split("(")[0].strip()
+        base = head.split(".")[-1]
+        if base in ("lru_cache", "cache") and head in ("lru_cache", "cache", "functools.lru_cache", "functools.cache"):
+            return {"typed": bool(_re.search(r"typed\s*=\s*True", d))}
+        mod = fi.module
+        f2 = getattr(mod, "functions", {}).get(base) if head == base else None
+        if f2 is not None:
+            src = ast.unparse(f2.node)
+            if _re.search(r"\b(lru_cache|cache)\b", src):
+                return {"typed": bool(_re.search(r"typed\s*=\s*True", src))}
+        return None
+
     def check_decorators(self, fi):
+        memo = None
         for d in getattr(fi, "decorators", ()):
             if d in self._KNOWN_DECORATORS or d.endswith(".setter") or d.endswith(".getter"):
                 continue
+            m = self.memo_info(d, fi)
+            if m is not None:
+                memo = m
+                continue
             raise Unsupported("function %s is wrapped by decorator @%s, whose effect (caching, wrapping, ...) is not modelled"
                               % (fi.qualname, d))
+        return memo
+
+    def call_memoised(self, fi, args, kwargs, self_val, memo):
+        """A memoised function (lru_cache semantics).  Every call may be a miss, so the body is interpreted on the actual
+        arguments; what memoisation ADDS is modelled as obligations and nondeterminism:
+          * the body may not consult anything but its arguments (files, streams, the clock): a later call with equal
+            arguments is answered from the cache whatever the world looks like by then  -> obligation;
+          * an object it returns may be the very object an EARLIER call returned (ghost `maybe_shared`), so a caller that
+            needs an object of its own has an obligation it can no longer meet;
+          * typed=False: keys compare with ==, so 100.0 hits the entry stored for 100: for every numeric argument the
+            answer may be the one computed for the equal number of the other type."""
+        args = list(args)
+        numeric = [a for a in map(self.force, args) if (isinstance(a, Fl) or is_int(a)) and not isinstance(a, bool)
+                   and not (z3.is_expr(a) and z3.is_bool(a))]
+        # (explored for functions with at most two numeric parameters: one fork per parameter)
+        if not memo.get("typed") and len(numeric) <= 2:
+            for i, a in enumerate(args):
+                a = self.force(a)
+                if isinstance(a, Fl) and not isinstance(a, bool):
+                    if self.choose(2, None, "memoised %s: own entry / hit on the entry of the equal int" % fi.qualname.split(".")[-1]) == 1:
+                        k = z3.Int(fresh_name("memo.int"))
+                        self.assume(z3.ToReal(k) == a.t)
+                        args[i] = k
+                elif is_int(a) and not isinstance(a, bool) and not z3.is_bool(a) if z3.is_expr(a) else (isinstance(a, int) and not isinstance(a, bool)):
+                    if self.choose(2, None, "memoised %s: own entry / hit on the entry of the equal float" % fi.qualname.split(".")[-1]) == 1:
+                        args[i] = Fl(z3.ToReal(I(a)))
+        prev = self.in_memo
+        self.in_memo = fi.qualname
+        try:
+            res = self.run_function(fi, args, kwargs, self_val)
+        finally:
+            self.in_memo = prev
+        for r in (res if isinstance(res, tuple) else (res,)):
+            if isinstance(r, Ref):
+                self.st.ghost.setdefault("maybe_shared", {})[r.oid] = fi.qualname
+        return res
 
     def call_func(self, fi, args, kwargs, self_val):
-        self.check_decorators(fi)
+        memo = self.check_decorators(fi)
         q = fi.qualname
+        if memo is not None and q not in self.contracts and not self.concrete:
+            self.used_inline.add(q + " (memoised)")
+            return self.call_memoised(fi, args, kwargs, self_val, memo)
         if q in self.contracts:
             self.used_contracts.add(q)
             return self.contracts[q](self, fi, self_val, args, kwargs)
@@ -2132,9 +2242,32 @@ class Engine:
             return self.bytes_join(obj, args[0])
         if isinstance(obj, str):
             if name == "format":
+                # a literal template: the fields it names must exist among the arguments (str.format raises IndexError /
+                # KeyError otherwise, whatever the values are)
+                import string as _string
+                try:
+                    auto = 0
+                    for _lit, fld, _spec, _conv in _string.Formatter().parse(obj):
+                        if fld is None:
+                            continue
+                        head = fld.split(".")[0].split("[")[0]
+                        if head == "":
+                            idx, auto = auto, auto + 1
+                        elif head.isdigit():
+                            idx = int(head)
+                        else:
+                            idx = None
+                        if idx is not None and idx >= len(args):
+                            raise PyRaise("IndexError", ("Replacement index %d out of range for positional args tuple" % idx,), node)
+                        if idx is None and head not in kwargs:
+                            raise PyRaise("KeyError", (head,), node)
+                except ValueError as _e:
+                    raise PyRaise("ValueError", (str(_e),), node)
                 if all(isinstance(a, (str, int)) and not isinstance(a, bool) for a in list(args) + list(kwargs.values())):
                     try:
                         return obj.format(*args, **kwargs)
+                    except (IndexError, KeyError, ValueError) as _e:
+                        raise PyRaise(type(_e).__name__, (str(_e),), node)
                     except Exception:
                         pass
                 h = self.st.ghost.get("str_format")
